@@ -47,7 +47,9 @@ def gen_lines(rng, tier):
     n_gate = rng.randint(1, 7 if tier == "quick" else 9)
     names = names_for(rng, n_in + n_dff + n_gate)
     ins, qs, gs = names[:n_in], names[n_in:n_in + n_dff], names[n_in + n_dff:]
-    avail = ins + qs
+    # a flop output that nothing but another flop reads exists only after the DFF pass has created it (fix 87362c2)
+    hidden = qs[1] if len(qs) == 2 and rng.random() < 0.5 else None
+    avail = ins + [q for q in qs if q != hidden]
     lines = [["I", n] for n in ins]
     for net in gs:
         g = rng.choice(GATE_NAMES)
@@ -65,7 +67,9 @@ def gen_lines(rng, tier):
         lines.append(["G", net, case_of(rng, g), ops])
         avail.append(net)
     for q in qs:
-        lines.append(["D", q, rng.choice(avail)])      # any net, incl. its own output and a later DFF's output
+        lines.append(["D", q, hidden if hidden and q == qs[0] else rng.choice(avail)])   # any net, incl. its own output and a later DFF's output
+    if hidden:
+        avail.append(hidden)
     used = {o for l in lines if l[0] == "G" for o in l[3]} | {l[2] for l in lines if l[0] == "D"}
     outs = [n for n in avail if (n not in used and n not in ins) or rng.random() < 0.2]
     if not outs:
